@@ -260,3 +260,39 @@ theorem electB_eq (o : Ordering) (cs : List Conn) :
   rw [dirFilter_viewB, nonceFilter_viewB]; rfl
 
 end Election
+
+namespace Election
+
+/-- Filtering a list by "key occurs among the keys of a sub-list" gives back the sub-list
+when keys are distinct. -/
+theorem filter_keys_of_sublist {α : Type} (f : α → Nat) {T cs : List α} (h : T.Sublist cs)
+    (hnd : (cs.map f).Nodup) : cs.filter (fun c => (T.map f).contains (f c)) = T := by
+  induction h with
+  | slnil => rfl
+  | cons a h ih =>
+    rename_i l₁ l₂
+    simp only [List.map_cons, List.nodup_cons] at hnd
+    have hna : (l₁.map f).contains (f a) = false := by
+      simp only [List.contains_eq_mem, List.mem_map, decide_eq_false_iff_not, not_exists, not_and]
+      intro x hx heq
+      exact hnd.1 (List.mem_map.mpr ⟨x, h.subset hx, heq⟩)
+    simp only [List.filter_cons, hna]
+    exact ih hnd.2
+  | cons_cons a h ih =>
+    rename_i l₁ l₂
+    simp only [List.map_cons, List.nodup_cons] at hnd
+    have ha : ((a :: l₁).map f).contains (f a) = true := by simp
+    have hrest : l₂.filter (fun c => ((a :: l₁).map f).contains (f c)) =
+        l₂.filter (fun c => (l₁.map f).contains (f c)) := by
+      apply List.filter_congr
+      intro x hx
+      have : f x ≠ f a := fun heq => hnd.1 (heq ▸ List.mem_map.mpr ⟨x, hx, rfl⟩)
+      simp [this]
+    simp only [List.filter_cons, ha, if_true, hrest, ih hnd.2]
+
+theorem filter_key_singleton {α : Type} (f : α → Nat) {cs : List α} {a : α} (ha : a ∈ cs)
+    (hnd : (cs.map f).Nodup) : cs.filter (fun c => [f a].contains (f c)) = [a] := by
+  have hs : [a].Sublist cs := List.singleton_sublist.mpr ha
+  simpa using filter_keys_of_sublist f hs hnd
+
+end Election
